@@ -1,0 +1,11 @@
+//go:build verif
+
+package mpx
+
+import "time"
+
+// VerifReconnectTimeout exposes the client's reconnect back-off function to the
+// verification harness (build tag verif only).
+func VerifReconnectTimeout(attempt int) time.Duration {
+	return reconnectTimeout(attempt)
+}
